@@ -982,6 +982,19 @@ func c11Instances(add func(*Instance), thorough bool, inv int) {
 				"xb", xb, "xm", 15)})
 		}
 	}
+	if inv == 0 {
+		// the receiver of AndAny holds a FULL run chunk at the first of two keys that both use the scratch bitmap chunk
+		for _, xb := range []int{56, 65520} {
+			add(&Instance{Func: "VerifC11Aggregate", Params: with(base, "g", 4, "lst", 123, "w", 1,
+				"ak", 2, "akeys", 4, "ac0", 220, "ac1", 226, "bk", 2, "bkeys", 4, "bc0", 221, "bc1", 221, "ck", 2, "ckeys", 4, "cc0", 21, "cc1", 21,
+				"xb", xb, "xm", 15)})
+		}
+		// unions whose accumulator is a bitmap chunk when the third member's run chunk (possibly ending at 65535) arrives
+		for _, g := range []int{0, 5, 7} {
+			add(&Instance{Func: "VerifC11Aggregate", Params: with(base, "g", g, "lst", 123, "w", 1,
+				"ak", 1, "akeys", 4, "ac0", 100, "bk", 1, "bkeys", 4, "bc0", 21, "ck", 1, "ckeys", 4, "cc0", 226, "xb", 65520, "xm", 15)})
+		}
+	}
 	// goroutine-based aggregates: worker counts 0..3, keys at the top of the key space, interleaved, wide and narrow spans
 	// several keys inside one work chunk, the third member inserting a key below and a key above an accumulated one
 	for g := 5; g <= 7; g++ {
